@@ -141,10 +141,15 @@ def main(argv=None):
             inconclusive.append("aborted path %s: %s" % (tag, ab["why"]))
         for n in r["notes"]:
             inconclusive.append("note %s: %s" % (tag, n))
-        # replay counterexamples
-        replayed = 0
+        # replay counterexamples: one per obligation family first (so that a known finding cannot use up the
+        # budget and hide a different violation of the same instance), then more of each, up to a budget
+        fams = {}
         for c in r["cex"]:
-            if replayed >= 6:
+            fams.setdefault(c["name"].split("[")[0], []).append(c)
+        ordered = [l[0] for l in fams.values()] + [c for l in fams.values() for c in l[1:]]
+        replayed = 0
+        for c in ordered:
+            if replayed >= max(6, len(fams)):
                 break
             os.makedirs(out_dir, exist_ok=True)
             body = {"property": prop, "spec": sp, "obligation": c["name"], "prefix": c["prefix"],
